@@ -358,7 +358,17 @@ func UpdateACL(input *PutBucketAclInput, acl ACL, iam IAMService, isAdmin bool) 
 		}
 	}
 
-	acl.Grantees = defaultGrantees
+	// a grant that is submitted more than once (the owner's implicit
+	// FULL_CONTROL is in every document GetBucketAcl returns) is stored once
+	acl.Grantees = make([]Grantee, 0, len(defaultGrantees))
+	seen := make(map[Grantee]struct{}, len(defaultGrantees))
+	for _, grt := range defaultGrantees {
+		if _, ok := seen[grt]; ok {
+			continue
+		}
+		seen[grt] = struct{}{}
+		acl.Grantees = append(acl.Grantees, grt)
+	}
 
 	result, err := json.Marshal(acl)
 	if err != nil {
